@@ -184,7 +184,7 @@ def split_config(h, mesh, style, pt=None, sub=None, bnd=None):
         M = m.to_meshtri(style=style)
         h.sample(dict(mesh=mesh, style=style, subdomains=sub, boundaries=bnd))
         nv0 = P.shape[1]
-        W = weights_of(h, P, M.doflocs, names)
+        W = weights_of(h, P, M.doflocs, names, cells=t, refp=m.refdom.p)
         tM = np.asarray(M.t)
         nper = 4 if style == 'x' else 2
         h.concrete('triangle count', tM.shape[1] == nper * t.shape[1])
